@@ -3,8 +3,7 @@ import material, report
 from checks import make_common as mc
 
 def mats(tier):
-    q = material.M(3) + [material.parse(x) for x in ('KRkr', 'KPkp', 'KPkr', 'KRkp')]
-    if tier == 'quick': return q
+    if tier == 'quick': return [material.parse(x) for x in ('KPk', 'Kkp', 'KRk', 'KNk', 'KRkr', 'KPkp')]
     t = material.M(4)
     t5 = [material.parse(x) for x in ('KRRkr', 'KRRkq', 'KPPkp', 'KRPkp', 'KPkrr', 'KQPkp', 'KBNkp', 'KRkpp', 'KPkpp', 'KRRkp')]
     return material.M(3) + t + t5
